@@ -1,0 +1,20 @@
+//go:build verif
+// +build verif
+
+package types
+
+import "reflect"
+
+// VerifC14WireTypes exposes (by reflection only) the unexported structs that the hand-written
+// EncodeRLP/DecodeRLP methods of this package hand to package rlp, so that the C14 schema translator
+// reads the real field lists and struct tags. Compiled only with -tags verif.
+func VerifC14WireTypes() map[string]reflect.Type {
+	return map[string]reflect.Type{
+		"txdata":            reflect.TypeOf(txdata{}),
+		"extblock":          reflect.TypeOf(extblock{}),
+		"receiptRLP":        reflect.TypeOf(receiptRLP{}),
+		"receiptStorageRLP": reflect.TypeOf(receiptStorageRLP{}),
+		"rlpLog":            reflect.TypeOf(rlpLog{}),
+		"rlpStorageLog":     reflect.TypeOf(rlpStorageLog{}),
+	}
+}
